@@ -120,9 +120,38 @@ Definition lookup_path (follow : bool) (h : heap) (p : path) : rres :=
 Definition resolve_base (follow : bool) (h : heap) (scope : path) (e : bexpr) : rres :=
   lookup_path follow h (canon h scope e).
 
+Definition is_sub (e : bexpr) : bool := match e with BSub _ => true | _ => false end.
+
+(* The `while resolved_base.is_attribute and isinstance(resolved_base.value, (ExprName, ExprAttribute))` loop of
+   Class.resolved_bases (fix 3a123f9): an attribute assigned a name / attribute chain is followed to what that names,
+   each step a fresh get_member + final_target; `followed` holds the paths already reached, coming back to one raises
+   KeyError (base dropped).  A subscripted value (`IntList = MyList[int]`) is NOT followed: the attribute is the result.
+   [subs] = true follows those as well (the reading in which every assigned name denotes its value).
+   fuel = number of objects + 1: every step reaches a new object. *)
+Fixpoint follow_attr (subs : bool) (fuel : nat) (h : heap) (followed : list path) (p : path) (k : okind) : rres :=
+  match k with
+  | KAttr v =>
+      if is_sub v && negb subs then Found p k
+      else match fuel with
+           | 0 => RFuel
+           | S f => match lookup_path false h (canon h (removelast p) v) with
+                    | Found q k' => if memp q followed then RKey else follow_attr subs f h (q :: followed) q k'
+                    | e => e
+                    end
+           end
+  | _ => Found p k
+  end.
+(* one base expression as Class.resolved_bases resolves it *)
+Definition gresolve_s (subs : bool) (h : heap) (scope : path) (e : bexpr) : rres :=
+  match resolve_base false h scope e with
+  | Found p k => follow_attr subs (S (List.length h)) h [p] p k
+  | r => r
+  end.
+Definition gresolve : heap -> path -> bexpr -> rres := gresolve_s false.
+
 (* Class.resolved_bases: the objects found, whatever their kind; errors are dropped *)
 Definition resolved_objs (h : heap) (scope : path) (es : list bexpr) : list (path * okind) :=
-  flat_map (fun e => match resolve_base false h scope e with Found p k => [(p, k)] | _ => [] end) es.
+  flat_map (fun e => match gresolve h scope e with Found p k => [(p, k)] | _ => [] end) es.
 (* ... and the `if base.is_class` filter of _mro *)
 Definition class_of (pk : path * okind) : list nat := match snd pk with KCls i => [i] | _ => [] end.
 Definition gbases (h : heap) (scope : path) (es : list bexpr) : list nat :=
@@ -130,7 +159,6 @@ Definition gbases (h : heap) (scope : path) (es : list bexpr) : list nat :=
 (* Python: every base has to evaluate to a class *)
 Definition pbase (h : heap) (scope : path) (e : bexpr) : option nat :=
   match resolve_base true h scope e with Found _ (KCls i) => Some i | _ => None end.
-Definition is_sub (e : bexpr) : bool := match e with BSub _ => true | _ => false end.
 (* typing.py, _GenericAlias.__mro_entries__: `Generic[T]` written before another subscripted base is erased from the bases
    (the later base brings Generic along).  [generic i]: class i is typing.Generic. *)
 Fixpoint mro_entries (generic : nat -> bool) (es : list (bexpr * nat)) : list nat :=
@@ -144,16 +172,18 @@ Definition pbases_g (generic : nat -> bool) (h : heap) (scope : path) (es : list
   do bs <- map_opt (pbase h scope) es; Some (mro_entries generic (combine es bs)).
 Definition pbases (h : heap) (scope : path) (es : list bexpr) : option (list nat) := pbases_g (fun _ => false) h scope es.
 
-(* did the Python reading of this base pass through an assignment? (instrumented run: Griffe stops there) *)
+(* Griffe's resolution ends on an attribute: its value is subscripted, the loop does not follow it *)
 Definition stops_at_attr (h : heap) (scope : path) (e : bexpr) : bool :=
-  match resolve_base false h scope e with Found _ (KAttr _) => true | _ => false end.
+  match gresolve h scope e with Found _ (KAttr _) => true | _ => false end.
 
 (* ------------------------------------------------------------------------------------------------
    Programs: a heap and the class statements; externals are classes Python knows and the collection does not
    ------------------------------------------------------------------------------------------------ *)
 Record xcls := mkX { xpath : path; xscope : path; xbases : list bexpr; xmembers : list string;
                      xmalias : list (string * path) }.
-Record prog := mkProg { pheap : heap; pclasses : list xcls; pext : list path; pobject : path }.
+(* ppatch: bindings as they were when the class statements ran, where they differ from the final ones the collection
+   holds (`Base = K1; class C(Base); Base = K2`): Python reads them first *)
+Record prog := mkProg { pheap : heap; pclasses : list xcls; pext : list path; pobject : path; ppatch : heap }.
 
 Fixpoint join (p : path) : string :=
   match p with [] => "" | [a] => a | a :: r => a ++ "." ++ join r end.
@@ -164,11 +194,19 @@ Definition ext_heap (g : prog) : heap :=
   map (fun jp => (snd jp, KCls (n_cls g + fst jp))) (combine (seq 0 (List.length (pext g))) (pext g))
   ++ map (fun p => (removelast p, KMod)) (pext g)              (* the module an external class lives in: `typing` *)
   ++ [(pobject g, KCls (n_cls g + List.length (pext g)))].
-Definition full_heap (g : prog) : heap := pheap g ++ ext_heap g.
+Definition full_heap (g : prog) : heap := ppatch g ++ pheap g ++ ext_heap g.
 Definition obj_index (g : prog) : nat := n_cls g + List.length (pext g).
 
 Definition is_ext (g : prog) (i : nat) : bool := (n_cls g <=? i) && (i <? obj_index g).
 Definition pbases_of (g : prog) (x : xcls) : option (list nat) := pbases_g (is_ext g) (full_heap g) (xscope x) (xbases x).
+
+(* Python resolves base e of class statement x to a class of the program; Griffe to something else, or to nothing *)
+Definition misresolved (g : prog) (x : xcls) (e : bexpr) : bool :=
+  match pbase (full_heap g) (xscope x) e with
+  | Some i => (i <? n_cls g) &&
+              negb (match gresolve (pheap g) (xscope x) e with Found _ (KCls j) => Nat.eqb j i | _ => false end)
+  | None => false
+  end.
 
 Definition gtbl (g : prog) : tbl :=
   map (fun x => mkCls (join (xpath x)) (gbases (pheap g) (xscope x) (xbases x)) (xmembers x)) (pclasses g).
@@ -283,10 +321,10 @@ Definition dec_xcls (s : sexp) : option xcls :=
   end.
 Definition dec_prog (s : sexp) : option prog :=
   match s with
-  | SList [h; cs; ext; ob] =>
+  | SList [h; cs; ext; ob; pa] =>
       do h' <- as_list_of dec_entry h; do cs' <- as_list_of dec_xcls cs;
-      do ext' <- as_list_of dec_path ext; do ob' <- dec_path ob;
-      Some (mkProg h' cs' ext' ob')
+      do ext' <- as_list_of dec_path ext; do ob' <- dec_path ob; do pa' <- as_list_of dec_entry pa;
+      Some (mkProg h' cs' ext' ob' pa')
   | _ => None
   end.
 
@@ -320,7 +358,7 @@ Definition run_class (g : prog) (c : nat) : sexp :=
     (* 0: Class.resolved_bases: paths and kinds, errors dropped *)
     SList (map (fun pk => SList [SStr (join (fst pk)); enc_kind (snd pk)]) (resolved_objs (pheap g) (xscope x) (xbases x)));
     (* 1: per base expression, Griffe's resolution outcome *)
-    SList (map (fun e => enc_rres (resolve_base false (pheap g) (xscope x) e)) (xbases x));
+    SList (map (fun e => enc_rres (gresolve (pheap g) (xscope x) e)) (xbases x));
     (* 2: bases after the is_class filter *)
     enc_list (cbases (nth_cls gt c));
     (* 3: Python's bases (None: some base does not denote a class) *)
@@ -335,8 +373,8 @@ Definition run_class (g : prog) (c : nat) : sexp :=
     SList (map (enc_xentry g gt) (all_members gt c));
     (* 9: CPython's attribute lookup, per member name of the program *)
     SList (map (fun nm => SList [SStr nm; of_opt of_nat (cpython_getattr_ext pt c nm)]) (all_names pt));
-    (* 10: some base of this class is an assigned name that Griffe does not follow *)
-    of_bool (existsb (stops_at_attr (pheap g) (xscope x)) (xbases x));
+    (* 10: KnownGap of the narrowed C07-F2: a base that Python resolves to a class of the program and Griffe does not *)
+    of_bool (existsb (misresolved g x) (xbases x));
     (* 11: Griffe's own claim for comparison with 6 is exact when nothing was dropped here *)
     of_bool (match pbases_of g x with
              | Some bs => if list_eq_dec Nat.eq_dec bs (cbases (nth_cls gt c)) then true else false
@@ -353,7 +391,7 @@ Definition run_C07b (s : sexp) : sexp :=
   | SList [SStr "resolve"; h; sc; e] =>
       match as_list_of dec_entry h, dec_path sc, dec_bexpr e with
       | Some h', Some sc', Some e' =>
-          SList [enc_rres (resolve_base false h' sc' e'); enc_rres (resolve_base true h' sc' e'); SStr (join (canon h' sc' e'))]
+          SList [enc_rres (gresolve h' sc' e'); enc_rres (resolve_base true h' sc' e'); SStr (join (canon h' sc' e'))]
       | _, _, _ => bad_input
       end
   | SList [SStr "hide"; t; x; c] =>
